@@ -819,7 +819,7 @@ def install():
 
     def rc_decref(self, key, count=1):
         r = active()
-        if r is not None and self is r.conn._local_objects and type(count) is not int and key in self._dict:
+        if GUARD_DECREF and r is not None and self is r.conn._local_objects and type(count) is not int and key in self._dict:
             # only reachable when `_handle_del` lost its type check: anything but an int is compared and subtracted
             # under the table's non-reentrant lock (a proxy there can block the serving thread for good)
             raise Unobservable("decref with a %s as count" % type(count).__name__)
@@ -846,6 +846,7 @@ def install():
 
 
 NOTHING = object()
+GUARD_DECREF = True    # the correspondence never lets a non-int count reach decref; the oracle switches this off
 IN_INSPECT = 0      # HANDLE_INSPECT reads every method of a held object's class hierarchy, by design
 PICKLE_LOG = []
 IMPORT_LOG = []
